@@ -1,6 +1,7 @@
 package main
 
 import (
+	"bytes"
 	"errors"
 	"fmt"
 	"strings"
@@ -19,11 +20,16 @@ var cntTypes = []content.Type{content.Page, content.Form, content.TransparencyGr
 
 var cntVersions = []pdf.Version{0, pdf.V1_7, pdf.V2_0, pdf.V1_3}
 
+// cntStrict is the version class of the model: "0" Version == 0 (readers: cross-nested
+// pairs tolerated), "1" 0 < Version < 2.0, "2" Version >= 2.0 (the Builder: strict nesting).
 func cntStrict(v pdf.Version) string {
-	if v > 0 && v < pdf.V2_0 {
+	switch {
+	case v == 0:
+		return "0"
+	case v < pdf.V2_0:
 		return "1"
 	}
-	return "0"
+	return "2"
 }
 
 func cntErrKind(err error) string {
@@ -342,11 +348,14 @@ func cntBuilderPick(b *builder.Builder, r *Rand, v pdf.Version) string {
 		bad := false
 		switch call {
 		case "Pop":
-			bad = !strings.Contains(nest, "1") || (v < pdf.V2_0 && b.State.CurrentObject == content.ObjText)
+			// the Builder wants properly nested pairs: close only the innermost open one
+			bad = !strings.HasSuffix(nest, "1") || (v < pdf.V2_0 && b.State.CurrentObject == content.ObjText)
 		case "Push":
 			bad = v < pdf.V2_0 && (b.State.CurrentObject == content.ObjText || b.State.VerifStackDepth() >= 28)
 		case "MCEnd":
-			bad = !strings.Contains(nest, "3")
+			bad = !strings.HasSuffix(nest, "3")
+		case "TextEnd":
+			bad = !strings.HasSuffix(nest, "2")
 		case "FillGray", "StrokeRGB", "Image":
 			bad = b.State.ColorOpsForbidden
 		}
@@ -440,7 +449,15 @@ func cntBuilderDo(b *builder.Builder, r *Rand, call string, afterCall func()) {
 		b.SetStrokeColor(color.DeviceRGB{0.5, float64(r.Intn(3)) / 2, 1})
 	case "Image":
 		img := cntGenImage(r, false)
-		b.DrawInlineImageRaw(img.Args[0].(pdf.Dict), []byte(img.Args[1].(pdf.String)))
+		dict := img.Args[0].(pdf.Dict)
+		data := []byte(img.Args[1].(pdf.String))
+		b.DrawInlineImageRaw(dict, data)
+		// the caller reuses its buffer and its dictionary for the next image
+		scribble = append(scribble, data)
+		defer func() {
+			dict["W"] = pdf.Integer(7)
+			dict["Reused"] = pdf.Boolean(true)
+		}()
 	case "Leading":
 		b.TextSetLeading(f())
 	case "CharSpacing":
@@ -535,12 +552,20 @@ func runCNTBuilderCase(c *Ctx, r *Rand, ct content.Type, v pdf.Version, sample b
 	if closeErr == nil && len(b.State.ClosingOperators()) != 0 {
 		c.Violate("closing", "builder-close", fmt.Sprintf("Close() == nil but ClosingOperators() = %v", b.State.ClosingOperators()), replay)
 	}
-	// (3) the stream re-reads as written
+	// (3) the stream re-reads as written: the Builder's own operators (operands of the
+	// Builder's types, e.g. pdf.Number) are serialised and compared with their native image
 	if inDomain, hazards := cntClassify(ops); inDomain && len(hazards) == 0 {
-		if ok, d := oracleCNTRoundTrip(ops); !ok {
-			c.Violate("roundtrip", "roundtrip", "Builder stream: "+d, cntReplayInput(ops))
+		if ok, okey, d := oracleCNTRoundTripKey(ops); !ok {
+			if okey == "" {
+				okey = "roundtrip"
+			}
+			c.Violate("roundtrip", okey, "Builder stream: "+d, cntReplayInput(ops))
 		}
 		data, _ := cntWrite(ops)
 		c.Emit("CNT scan "+hexWire(data), cntImplScanLine(data))
+		own, err := cntWrite(b.Stream)
+		if err != nil || !bytes.Equal(own, data) {
+			c.Violate("roundtrip", "builder-stream-bytes", fmt.Sprintf("the Builder's stream serialises as %q, its native image as %q (%v)", truncate(string(own)), truncate(string(data)), err), cntReplayInput(ops))
+		}
 	}
 }
